@@ -336,6 +336,9 @@ package sse
 //@   ensures manual_stores_given_message: result1 == nil && v.currentID == nil ==> result == message
 //@   ensures auto_consecutive_ids: result1 == nil && v.currentID != nil ==> result.ID.value == fmtU(old(*v.currentID)) && *v.currentID == old(*v.currentID) + 1 && fresh(result)
 //@   ensures stored_copy_cannot_append_in_place: result1 == nil && v.currentID != nil ==> cap(result.chunks) == len(result.chunks)
+//@   ensures first_put_starts_the_collection_interval: len(topics) > 0 && old(v.lastGC) == 0 ==> v.lastGC == cret(old(ncalls()), "Now", 0)
+//@   ensures last_collection_time_moves_only_with_a_collection: len(topics) > 0 && old(v.lastGC) != 0 ==> let(now, cret(old(ncalls()), "Now", 0), v.lastGC == ite(v.GCInterval > 0 && now - old(v.lastGC) >= v.GCInterval, now, old(v.lastGC)))
+//@   ensures collects_when_the_interval_has_elapsed: len(topics) > 0 && old(v.lastGC) != 0 ==> let(now, cret(old(ncalls()), "Now", 0), v.GCInterval > 0 && now - old(v.lastGC) >= v.GCInterval ==> forall(k, 0, v.messages.count - ite(result1 == nil, 1, 0), at(&v.messages, k).exp > now))
 //@   ensures message_untouched: *message == old(*message)
 
 //@ func ValidReplayer.Replay
@@ -794,9 +797,10 @@ package sse
 //@   ensures stops_when_told: forall(x, old(ncalls()), ncalls()-1, isyield(x) ==> cret(x, "yield", 0))
 //@   ensures retry_only_for_valid_values: forall(x, old(ncalls()), ncalls(), iscall(x, "onRetry") ==> carg(x, "onRetry", 0) >= 0)
 //@   ensures clean_end_is_no_error_for_read: ignoreEOF ==> forall(x, old(ncalls()), ncalls(), isyield(x) ==> yielderr(x) != io.EOF)
-//@   ensures pending_event_only_at_a_clean_end: reached(0) ==> forall(x, atexit(0, ncalls()), ncalls(), isyield(x) && yielderr(x) == nil ==> isEOF && atexit(0, dirty) && x == atexit(0, ncalls()))
-//@   ensures pending_event_flushed_at_a_clean_end: reached(0) ==> (isEOF && atexit(0, dirty) ==> ncalls() > atexit(0, ncalls()) && isyield(atexit(0, ncalls())) && yielderr(atexit(0, ncalls())) == nil &&
+//@   ensures pending_event_only_at_a_clean_end: reached(0) ==> forall(x, atexit(0, ncalls()), ncalls(), isyield(x) && yielderr(x) == nil ==> err == io.EOF && atexit(0, dirty) && x == atexit(0, ncalls()))
+//@   ensures pending_event_flushed_at_a_clean_end: reached(0) ==> (err == io.EOF && atexit(0, dirty) ==> ncalls() > atexit(0, ncalls()) && isyield(atexit(0, ncalls())) && yielderr(atexit(0, ncalls())) == nil &&
 //@       yieldev(atexit(0, ncalls())).LastEventID == atexit(0, lastEventID) && yieldev(atexit(0, ncalls())).Type == atexit(0, typ) && eqbytes(yieldev(atexit(0, ncalls())).Data, chomp(atexit(0, sb))))
+//@   ensures a_failure_is_reported_as_itself: reached(0) ==> (err != nil && err != io.EOF && (forall(x, old(ncalls()), ncalls(), isyield(x) ==> cret(x, "yield", 0))) ==> ncalls() == atexit(0, ncalls()) + 1 && isyield(ncalls()-1) && yielderr(ncalls()-1) == err)
 //@   ensures ends_with_a_reason: !ignoreEOF && (forall(x, old(ncalls()), ncalls(), isyield(x) ==> cret(x, "yield", 0))) ==> ncalls() > old(ncalls()) && isyield(ncalls()-1) && yielderr(ncalls()-1) != nil
 //@   invariant 0 parser_alive: p != nil && p.fieldScanner != nil && p.inputScanner != nil && !p.fieldScanner.keepComments
 //@   invariant 0 token_in_progress: ptokinv(p)
